@@ -32,17 +32,19 @@ def body_partition(E, api, n, mode, b, shuf, farmer, cv, j1, j2, j3, j4, j5):
 
     log = []
 
-    def fn(a=0, b=0, c=0, k=0, res=0):
-        log.append(dict(a=a, b=b, c=c, k=k, res=res))
+    def fn(a=0, b=0, c=0, k=0, res=0, q=0):
+        log.append(dict(a=a, b=b, c=c, k=k, res=res, q=q))
         return 0
 
     consts = {"k": cv}
+    if farmer:
+        consts["q"] = cv + 5          # a sow-time constant that overrides the farmer's stored constant "q"
     with E(pools=[js[:N]]) as env:
         shuffle = False if shuf == 0 else (True if shuf == 1 and env.mode == "sym" else env.seed_for(js[:N], N))
         # ---- direct run: the kwargs every setting must be sown with
         if farmer:
-            runner = Runner(fn, var_names="out", constants={"c": 3}, resources={"res": cv + 1})
-            full_consts = {"c": 3, "res": cv + 1, "k": cv}
+            runner = Runner(fn, var_names="out", constants={"q": 3}, resources={"res": cv + 1})
+            full_consts = {"q": cv + 5, "res": cv + 1, "k": cv}     # what run_combos(constants=consts) passes
         else:
             runner = None
             full_consts = dict(consts)
@@ -79,14 +81,14 @@ def body_partition(E, api, n, mode, b, shuf, farmer, cv, j1, j2, j3, j4, j5):
             return False
         sizes = []
         seen = []
-        keys = ("a", "b", "c", "k", "res")
+        keys = ("a", "b", "c", "k", "res", "q")
         for i in range(1, B + 1):
             batch = env.read_obj(bdir + "/xyz-batch-%d.jbdmp" % i)
             if len(batch) < 1:
                 return False
             sizes.append(len(batch))
             for kws in batch:
-                full = dict(a=0, b=0, c=0, k=0, res=0)
+                full = dict(a=0, b=0, c=0, k=0, res=0, q=0)
                 for kk in kws:
                     if kk not in keys:
                         return False
